@@ -201,14 +201,14 @@ def main():
         okjob = next((r for r in got if r and 'ok' in r), None)
         if okjob:
             evs = [dict(e) for e in okjob['ok']['events']]
-            evs[0] = dict(evs[0], card=dict(evs[0]['card'], small=evs[0]['card']['small'] + 1))
+            evs[0] = dict(evs[0], card=dict(evs[0]['card'], small=evs[0]['card']['small'] + 1000))      # (far off: also when the recorded value itself is already wrong by a few)
             with open(tf, 'w') as f:
                 for ev in evs[:1]:
                     f.write(json.dumps(ev) + '\n')
             res2 = E.run_tlc(wdmc, cfg, workers=1, env={'TRACE_FILE': tf}, timeout=600)
             if res2.ok:
                 raise E.MachineryError('negative control: corrupted cardinality accepted by TraceQuality')
-            V.notes['negative_control'] = 'TraceQuality rejects a batch state whose cardinality was increased by one'
+            V.notes['negative_control'] = 'TraceQuality rejects a batch state whose cardinality was increased by 1000'
 
         # ---- CLI: annotations, value_repetitions.json, rare_values.tsv across minibatch sizes
         n2 = 3000
